@@ -651,14 +651,10 @@ func assemble(in asmIn) ([]byte, error) {
 	if in.Nonce {
 		tbs.Extensions = []mExt{{Id: stdasn1.ObjectIdentifier{1, 3, 6, 1, 5, 5, 7, 48, 1, 2}, Value: []byte{4, 2, 0xaa, 0xbb}}}
 	}
-	params := "optional"
-	if in.Version >= 0 {
+	if in.Version == 0 {
 		// the mirror struct omits version 0 (default:0); write it explicitly when asked to
-		if in.Version == 0 {
-			return assembleExplicitV0(in, tbs, signer, ca)
-		}
+		return assembleExplicitV0(in, tbs, signer, ca)
 	}
-	_ = params
 	tbsDER := mustMarshal(tbs)
 	return finishAssemble(in, tbsDER, signer, ca)
 }
@@ -1264,7 +1260,7 @@ func genTemplates(c *vh.Ctx) {
 		}
 		t.Reason = c.Pick([]int{0, 0, 1, 2, 3, 4, 5, 6, 8, 9, 10, 7, 11, 127, 128, 255, 256, 65535, 1 << 30})
 		if c.Intn(25) == 0 {
-			t.Reason = c.Pick([]int{-1, -128, 1 << 31, 1 << 40})
+			t.Reason = c.Pick([]int{-1, -128, -32768})
 		}
 		t.Hash = c.Pick([]int{0, 0, 3, 5, 6, 7, 7, 5})
 		if c.Intn(15) == 0 {
